@@ -28,6 +28,7 @@
 #include <cds/intrusive/lazy_list_hp.h>
 #include <cds/intrusive/iterable_list_hp.h>
 #include <memory>
+#include <functional>
 #include "../client.h"
 
 using namespace khizmax_libcds_verif;
@@ -71,6 +72,7 @@ struct IMap {
     virtual bool insert( long k, long v ) = 0;
     virtual std::pair<bool, bool> update( long k, long v, bool allow ) = 0;
     virtual bool erase( long, long& ) { return false; }
+    std::function<void()> lockfn, unlockfn;      // LazyList<RCU>::extract must be called under the RCU read lock (documented)
     virtual bool extract( long, long& ) { return false; }
     virtual bool find( long k, long& v ) = 0;
     virtual bool contains( long k ) = 0;
@@ -268,10 +270,13 @@ struct KVListML : IMap {
     bool erase( long k, long& v ) override { return l.erase( k, [&v]( value_type& item ) { v = item.second; } ); }
     bool extract( long k, long& v ) override
     {
+        if ( lockfn ) lockfn();
         auto p = l.extract( k );
-        if ( !p ) return false;
-        v = p->second;
-        return true;
+        bool ok = bool( p );
+        if ( ok ) v = p->second;
+        if ( unlockfn ) unlockfn();
+        p.release();      // outside the RCU lock
+        return ok;
     }
     bool find( long k, long& v ) override { return l.find( k, [&v]( value_type& item ) { v = item.second; } ); }
     bool contains( long k ) override { return l.contains( k ); }
@@ -293,10 +298,13 @@ struct KVListIter : IMap {
     bool erase( long k, long& v ) override { return l.erase( k, [&v]( value_type& item ) { v = item.second; } ); }
     bool extract( long k, long& v ) override
     {
+        if ( lockfn ) lockfn();
         auto p = l.extract( k );
-        if ( !p ) return false;
-        v = p->second;
-        return true;
+        bool ok = bool( p );
+        if ( ok ) v = p->second;
+        if ( unlockfn ) unlockfn();
+        p.release();      // outside the RCU lock
+        return ok;
     }
     bool find( long k, long& v ) override { return l.find( k, [&v]( value_type& item ) { v = item.second; } ); }
     bool contains( long k ) override { return l.contains( k ); }
@@ -496,10 +504,10 @@ struct Fixture {
         else if ( v == "lazy_kv_hp_cnt" ) m.reset( new KVListML<CLazyKV<HP, 0, true>> );
         else if ( v == "michael_gpi" ) { m.reset( new SetListML<CMichael<rcu_gpi, 0, false>> ); after = [] { rcu_gpi::force_dispose(); }; }
         else if ( v == "michael_gpb" ) { m.reset( new SetListML<CMichael<rcu_gpb, 0, true>> ); after = [] { rcu_gpb::force_dispose(); }; }
-        else if ( v == "lazy_gpi" ) { m.reset( new SetListML<CLazy<rcu_gpi, 1, false>> ); after = [] { rcu_gpi::force_dispose(); }; }
-        else if ( v == "lazy_gpb" ) { m.reset( new SetListML<CLazy<rcu_gpb, 0, false>> ); after = [] { rcu_gpb::force_dispose(); }; }
+        else if ( v == "lazy_gpi" ) { m.reset( new SetListML<CLazy<rcu_gpi, 1, false>> ); after = [] { rcu_gpi::force_dispose(); }; m->lockfn = [] { rcu_gpi::access_lock(); }; m->unlockfn = [] { rcu_gpi::access_unlock(); }; }
+        else if ( v == "lazy_gpb" ) { m.reset( new SetListML<CLazy<rcu_gpb, 0, false>> ); after = [] { rcu_gpb::force_dispose(); }; m->lockfn = [] { rcu_gpb::access_lock(); }; m->unlockfn = [] { rcu_gpb::access_unlock(); }; }
         else if ( v == "michael_kv_gpi" ) { m.reset( new KVListML<CMichaelKV<rcu_gpi, 0, false>> ); after = [] { rcu_gpi::force_dispose(); }; }
-        else if ( v == "lazy_kv_gpb" ) { m.reset( new KVListML<CLazyKV<rcu_gpb, 0, false>> ); after = [] { rcu_gpb::force_dispose(); }; }
+        else if ( v == "lazy_kv_gpb" ) { m.reset( new KVListML<CLazyKV<rcu_gpb, 0, false>> ); after = [] { rcu_gpb::force_dispose(); }; m->lockfn = [] { rcu_gpb::access_lock(); }; m->unlockfn = [] { rcu_gpb::access_unlock(); }; }
         else if ( v == "imichael_hp" ) m.reset( new IntrListML<HP, ci::MichaelList<HP, mitem<HP>, imtraits<HP>>, mitem<HP>> );
         else if ( v == "imichael_dhp" ) m.reset( new IntrListML<DHP, ci::MichaelList<DHP, mitem<DHP>, imtraits<DHP>>, mitem<DHP>> );
         else if ( v == "ilazy_hp" ) m.reset( new IntrListML<HP, ci::LazyList<HP, litem<HP>, iltraits<HP>>, litem<HP>> );
